@@ -112,9 +112,16 @@ def stdio_variant(j, stdin=True, stdout=True):
     return n
 
 
+READINGS = {}
+
+
 def judge(job, res):
     if hasattr(job, 'alternatives'):
         whys = [judge_one(exp, res) for exp in job.alternatives]
+        # which reading of the line ends the command follows (0: str.splitlines boundaries, 1: newlines only), when the
+        # two readings give different results: every command must follow the same one (READINGS is judged at the end)
+        if any(w is None for w in whys) and not all(w is None for w in whys):
+            READINGS.setdefault(whys.index(None), []).append(job.tag)
         return None if any(w is None for w in whys) else whys[0]
     return judge_one(job.expected, res)
 
@@ -212,6 +219,19 @@ def build_jobs(ck):
                     return fmt('{}\t{}'.format(k, '%.4g' % v if v is not None else 'None') for k, v in r.items())
                 alts.append(expect(fe4))
             j = Job('eval', 'wordseg.evaluate', ['-q', '-r', '@units.txt', '@in.txt', '@gold.txt'], files, alts[0], tag='eval line boundary %r' % brk)
+            j.alternatives = alts
+            jobs.append(j)
+        # the same for wordseg-stats (utterance counts depend on what ends a line)
+        trees_lb, tags_lb = tagged_corpus(rng, n=9)
+        for brk in ('\u2028', '\x0c'):
+            files = {'in.txt': brk.join(tags_lb) + '\n'}
+            alts = []
+            for split in (str.splitlines, lambda c: c.split('\n')):
+                def fs4(files=files, split=split):
+                    results = CorpusStatistics([l + '\n' for l in split(files['in.txt'])], Separator()).describe_all()
+                    return json.dumps(results, indent=4) + '\n'
+                alts.append(expect(fs4))
+            j = Job('stats', 'wordseg.statistics', ['-q', '--json', '@in.txt'], files, alts[0], tag='stats line boundary %r' % brk)
             j.alternatives = alts
             jobs.append(j)
         # scores that are exactly 0 (zero numerator, non-zero denominator) and undefined scores (zero denominator)
@@ -402,7 +422,8 @@ def sep_jobs(ck):
     """prep, stats, syll, dibs, baseline -O with a separator triple given on the command line"""
     rng = ck.rng
     jobs = []
-    seps = [CSEP, NOSYL] + ([('p', 's', 'w'), ('·', '‖', '§§'), (None, '=', '/'), (';', None, '<w>')] if ck.thorough else [])
+    # (a triple of non-ASCII separators in both tiers: what is typed after -p/-s/-w must reach Separator() unchanged)
+    seps = [CSEP, NOSYL, ('·', '‖', '§§')] + ([('p', 's', 'w'), (None, '=', '/'), (';', None, '<w>')] if ck.thorough else [])
     for rep in range(4 if ck.thorough else 1):
         for sep in seps:
             tg = 'sep' + repr(sep)
@@ -1049,6 +1070,15 @@ def main():
         ck.violation({'site': 'python -m ' + j.module, 'input': desc, 'expected': repr(j.expected)[:400], 'status': r['code'], 'stderr': r['err'][-4000:],
                       'result': (r['out'] or '')[:400], 'received': r.get('argvs')},
                      'property fails on the implementation (%s): %s' % (j.tag, why))
+    if len(READINGS) > 1:
+        ck.violation({'site': 'python -m wordseg.*', 'input': {'files': 'utterances separated by U+2028 / NEL / FF instead of newlines',
+                                                               'lines end at str.splitlines boundaries for': READINGS.get(0, [])[:8],
+                                                               'lines end at newlines only for': READINGS.get(1, [])[:8]}},
+                     'property fails on the implementation: the commands do not agree on what ends a line of their input files: '
+                     '%d runs cut the text at every Unicode line boundary (%s ...), %d only at newlines (%s ...)'
+                     % (len(READINGS.get(0, [])), ', '.join(READINGS.get(0, [])[:2]), len(READINGS.get(1, [])), ', '.join(READINGS.get(1, [])[:2])))
+        bad.append(None)
+    ck.cov['line_boundary_readings'] = {str(k): len(v) for k, v in READINGS.items()}
     ck.cov['failing_runs'] = len(bad)
     if not bad:
         finish_proof_failures(ck, failures)
